@@ -230,3 +230,55 @@ Example C14_notbol_nonvacuous :
     = Changed [95; 97; 95; 97; 95; 10] /\
   subst_line (ComposeSubst.engine_find 256 false [94; 97; 43]) [88] true [97; 97; 97; 10] = Changed [88; 10].
 Proof. exact SubstNotbol.notbol_nonvacuous. Qed.
+
+(* ---- re_read of rset.c (translated: GenCFuncs.F_re_read / cf_re_read) is the model SubstDefs.re_read, coq/TrRset.v ----------
+   The theorems above (C14_reuse, the argument theorems) speak about the hand-written re_read / re_read_loop; this one ties
+   the model to the C TEXT of re_read: tools/c2clite.py prints clang's AST of the function as a CLite term (CLite.v fixes
+   what the term means: checked loads and stores, loops on fuel) and, for EVERY NUL-free command string in memory, every
+   offset o where *src points and every delimiter byte below 128, running the body gives
+     - NULL and an unchanged memory when *src is at the terminator (model: None);
+     - otherwise a block that starts with the cells of the model's text and the terminator, *src moved to the offset o'
+       with skipn o' s = the model's rest (behind the closing delimiter, or at the terminator when it is missing), every
+       older block other than the one holding *src unchanged; every load was inside the string and its terminator.
+   WHICH bytes are appended and WHERE the scan stops is the whole content: a backslash followed by the delimiter drops the
+   backslash, a backslash followed by anything else keeps both (and steps over both), the scan stops at the unescaped
+   delimiter.  The statement is RELATIVE to the string buffer: `sbuf_iface call m0 p Rep BOUND` says that the calls of
+   sbuf_make / sbuf_chr / sbuf_done (whatever `call` runs for them) create a buffer, append one cell to it and hand it
+   over, leaving older blocks alone (TrRset.sbuf_iface; the translated sbuf.c itself is the subject of coq/TrSbuf.v).
+   A delimiter byte of 128..255 is excluded: the C text compares the plain char *s with the (unsigned char) delimiter, so
+   where char is signed such a delimiter is never found again (see design.d/C14.md). *)
+From NV Require CLite CLiteProps GenCFuncs TrRset.
+Theorem C14_tr_re_read : forall call m0 p Rep BOUND, TrRset.sbuf_iface call m0 p Rep BOUND ->
+  forall b (s : bytes) bp op (blk : CLite.block) o fuel,
+  CLiteProps.str_at m0 b s -> nonul s ->
+  nth_error m0 bp = Some blk -> (0 <= op)%Z -> nth_error blk (Z.to_nat op) = Some (CLite.VPtr b (Z.of_nat o)) ->
+  (o <= length s)%nat -> nthb s o < 128 -> (length s <= BOUND)%nat -> (length s < fuel)%nat ->
+  match re_read (skipn o s) with
+  | None => CLite.exec call fuel (CLite.fn_body GenCFuncs.cf_re_read) (CLite.mkst [CLite.VPtr bp op; CLite.VUndef; CLite.VUndef; CLite.VUndef] m0)
+            = CLite.OReturn (CLite.VInt 0) (CLite.mkst [CLite.VPtr bp op; CLite.VUndef; CLite.VPtr b (Z.of_nat o + 1); CLite.VInt 0] m0)
+  | Some (txt, rest) =>
+      exists bo m' tail o' st',
+      CLite.exec call fuel (CLite.fn_body GenCFuncs.cf_re_read) (CLite.mkst [CLite.VPtr bp op; CLite.VUndef; CLite.VUndef; CLite.VUndef] m0)
+        = CLite.OReturn (CLite.VPtr bo 0) st' /\
+      CLite.memm st' = m' /\
+      nth_error m' bo = Some (map TrRset.cell txt ++ CLite.VInt 0 :: tail) /\ (length m0 <= bo)%nat /\
+      nth_error m' bp = Some (CLiteProps.upd blk (Z.to_nat op) (CLite.VPtr b (Z.of_nat o'))) /\ (o' <= length s)%nat /\ skipn o' s = rest /\
+      forall b', (b' < length m0)%nat -> b' <> bp -> nth_error m' b' = nth_error m0 b'
+  end.
+Proof. exact TrRset.re_read_scan. Qed.
+Print Assumptions C14_tr_re_read.
+
+(* the translated re_read RUNS, with the translated sbuf.c under it (vm_compute of the CLite interpreter on a memory of two
+   blocks: the string, the pointer *src; TrRset.rr_run returns the string handed back and the new *src), and agrees with the
+   model on:  /a\\/x  (seeded change C13g: the escaped backslash before the closing delimiter must not swallow it: text a\\ ,
+   *src behind the second / ),  /a\/b/  (escaped delimiter: a/b),  /a\c  (no closing delimiter: a\c, *src at the terminator),
+   and the empty string (NULL, *src unchanged) *)
+Example C14_tr_re_read_runs :
+  TrRset.rr_run [47; 97; 92; 92; 47; 120] 300 = Some (Some [97; 92; 92]%Z, CLite.VPtr 0 5) /\
+  re_read [47; 97; 92; 92; 47; 120] = Some ([97; 92; 92], [120]) /\
+  TrRset.rr_run [47; 97; 92; 47; 98; 47] 300 = Some (Some [97; 47; 98]%Z, CLite.VPtr 0 6) /\
+  re_read [47; 97; 92; 47; 98; 47] = Some ([97; 47; 98], []) /\
+  TrRset.rr_run [47; 97; 92; 99] 300 = Some (Some [97; 92; 99]%Z, CLite.VPtr 0 4) /\
+  re_read [47; 97; 92; 99] = Some ([97; 92; 99], []) /\
+  TrRset.rr_run [] 300 = Some (None, CLite.VPtr 0 0) /\ re_read [] = None.
+Proof. repeat split; vm_compute; reflexivity. Qed.
